@@ -109,6 +109,8 @@ def _gen_scope_init(rng):
         if rng.random() < 0.3:
             text = text.rstrip("\r\n")  # no trailing newline
         init["attrs"] = text
+        if rng.random() < 0.1:
+            init["attrs_latin1"] = True    # a comment in another encoding (git does not care what bytes a comment holds)
     return init
 
 
@@ -227,6 +229,22 @@ class Runner:
             with open(p, "w") as f:
                 f.write("#!/bin/sh\necho \"%s $1\" >> '%s'\nexit %d\n" % (name, self.sentinel_log, rc))
             os.chmod(p, 0o755)
+        # stand-ins for the web tools: record how git invokes them (arguments and the first line of each file argument)
+        self.tool_log = os.path.join(w.root, "tool.log")
+        for name in ("git-nbdifftool", "git-nbmergetool"):
+            p = os.path.join(w.bin, name)
+            script = "\n".join([
+                "#!/bin/sh",
+                "printf 'TOOL NAME\\n' >> 'LOG'",
+                'for a in "$@"; do',
+                "  l=-",
+                '  if [ -f "$a" ]; then IFS= read -r l < "$a"; fi',
+                "  printf 'ARG %s\\t%s\\n' \"$a\" \"$l\" >> 'LOG'",
+                "done",
+                "exit 0", ""]).replace("NAME", name).replace("LOG", self.tool_log)
+            with open(p, "w") as f:
+                f.write(script)
+            os.chmod(p, 0o755)
         self.outside = os.path.join(w.root, "elsewhere")
         os.makedirs(self.outside)
         nb = '{"cells": [], "metadata": {}, "nbformat": 4, "nbformat_minor": 4}\n'
@@ -251,10 +269,10 @@ class Runner:
             w.work, w.git("rev-parse", "--git-path", "config").stdout.decode().strip()))
         self.info_attrs = os.path.realpath(os.path.join(
             w.work, w.git("rev-parse", "--git-path", "info/attributes").stdout.decode().strip()))
-        for n in ("x.ipynb", "y.ipynb"):
+        for n in ("x.ipynb", "y.ipynb", "sp ace.ipynb"):
             with open(os.path.join(w.work, n), "w") as f:
                 f.write(nb)
-        w.git("add", "x.ipynb", "y.ipynb")
+        w.git("add", "x.ipynb", "y.ipynb", "sp ace.ipynb")
         w.git("commit", "-q", "-m", "base")
         w.git("checkout", "-q", "-b", "other")
         with open(os.path.join(w.work, "x.ipynb"), "w") as f:
@@ -264,19 +282,23 @@ class Runner:
         with open(os.path.join(w.work, "x.ipynb"), "w") as f:
             f.write(nb.replace('"metadata": {}', '"metadata": {"side": "main"}'))
         w.git("commit", "-q", "-am", "main")
-        with open(os.path.join(w.work, "y.ipynb"), "w") as f:
-            f.write(nb.replace('"metadata": {}', '"metadata": {"dirty": true}'))
+        for n in ("y.ipynb", "sp ace.ipynb"):
+            with open(os.path.join(w.work, n), "w") as f:
+                f.write(nb.replace('"metadata": {}', '"metadata": {"dirty": true}'))
+        self.nb_clean, self.nb_dirty = nb.strip(), nb.replace('"metadata": {}', '"metadata": {"dirty": true}').strip()
         # a second repository of the same user, with no configuration or attributes of its own: what --global commands
         # achieve is judged there (the repository the command is run in may already route notebooks by itself)
         self.other_repo = os.path.join(w.root, "other-repo")
         os.makedirs(self.other_repo)
         w.git("init", "-q", "-b", "main", ".", cwd=self.other_repo)
-        with open(os.path.join(self.other_repo, "x.ipynb"), "w") as f:
-            f.write(nb)
-        w.git("add", "x.ipynb", cwd=self.other_repo)
+        for n in ("x.ipynb", "sp ace.ipynb"):
+            with open(os.path.join(self.other_repo, n), "w") as f:
+                f.write(nb)
+        w.git("add", "x.ipynb", "sp ace.ipynb", cwd=self.other_repo)
         w.git("commit", "-q", "-m", "base", cwd=self.other_repo)
-        with open(os.path.join(self.other_repo, "x.ipynb"), "w") as f:
-            f.write(nb.replace('"metadata": {}', '"metadata": {"dirty": true}'))
+        for n in ("x.ipynb", "sp ace.ipynb"):
+            with open(os.path.join(self.other_repo, n), "w") as f:
+                f.write(nb.replace('"metadata": {}', '"metadata": {"dirty": true}'))
         # attributes locations
         self.local_attrs = os.path.join(w.work, ".gitattributes")
         if tw["custom_attributesfile"]:
@@ -290,8 +312,10 @@ class Runner:
                 w.git("config", "--" + scope, "--add", k, v.replace("@BIN", w.bin))
             if init["attrs"] is not None:
                 os.makedirs(os.path.dirname(path), exist_ok=True)
-                with open(path, "w") as f:
-                    f.write(init["attrs"])
+                with open(path, "wb") as f:
+                    if init.get("attrs_latin1"):
+                        f.write(b"# r\xe8gles du d\xe9p\xf4t\n")
+                    f.write(init["attrs"].encode("utf8"))
         # make sure ~/.gitconfig exists so its lock path is well defined
         gc = os.path.join(w.home, ".gitconfig")
         if not os.path.exists(gc):
@@ -341,6 +365,18 @@ class Runner:
         w.git("checkout", "-q", "--", "x.ipynb", check=False)
         text = self._read(self.sentinel_log) or ""
         return ("git-nbdiffdriver diff" in text, "git-nbmergedriver merge" in text)
+
+    def probe_difftool(self, repo_dir):
+        """`git difftool --tool=nbdime` on a modified notebook whose name contains a space: how is nbdime's tool invoked?
+        Returns None if the tool was not run, else [(argument, first line of that file or '-')]."""
+        w = self.w
+        if os.path.exists(self.tool_log):
+            os.remove(self.tool_log)
+        w.git("difftool", "-y", "--tool=nbdime", "--", "sp ace.ipynb", check=False, cwd=repo_dir)
+        text = self._read(self.tool_log)
+        if not text or "TOOL git-nbdifftool" not in text:
+            return None
+        return [tuple(l[4:].split("\t", 1)) for l in text.splitlines() if l.startswith("ARG ")]
 
     def probe_other(self):
         """Is a notebook diff in the *other* repository routed to nbdime's diff driver?  (check-attr for both drivers.)"""
@@ -609,6 +645,17 @@ class Runner:
                                                  sorted(before["local"]), sorted(before["global"]),
                                                  before["local_attrs"], before["global_attrs"]])[:12])
         nv = len(self.violations)
+        if op["enable"] and fired not in ("kill_before", "kill_after"):
+            # whatever happens to it, an enable command takes nothing away: a driver or tool entry that was configured
+            # before it ran is still configured afterwards (no "rollback" of a set-up that worked)
+            target_ = "global" if op["global"] else "local"
+            had = {k for k, _ in before[target_] if k in OWN_KEYS}
+            lost = sorted(had - {k for k, _ in after[target_]})
+            if lost:
+                self.violate("S3", dict(sig, what="enable_removed_entries"),
+                             "an enable command (outcome %s, fault %s) removed nbdime entries that were configured before it ran: %r" % (
+                                 outcome, fired, lost))
+                return
         self.foreign_diff(op, before, after, sig, "after the command")
         self.attrs_check(op, before, after, sig, "after the command")
         if len(self.violations) > nv:
@@ -705,6 +752,23 @@ class Runner:
                     missing.append(dk + "=nbdime")
             if missing:
                 self.violate("S6", dict(sig, what=missing[0]), "after a successful enable the %s scope lacks nbdime's own entries %r" % (target, missing))
+                return
+        if comp in ("difftool", "config-git") and outcome == "rc0" and (in_repo or target == "global"):
+            # the tool entry is usable as written: git hands the tool the old and the new version of the notebook
+            where = self.w.work if (target == "local" or in_repo) else self.other_repo
+            # (a diff driver configured for *.ipynb takes precedence over difftool's helper: nothing to observe then)
+            ca = self.w.git("check-attr", "diff", "--", "sp ace.ipynb", check=False, cwd=where).stdout.decode()
+            args_seen = self.probe_difftool(where) if "diff: jupyternotebook" not in ca else "skipped"
+            if args_seen == "skipped":
+                self.stat("difftool_probe_skipped_diff_driver_routed")
+            else:
+                self.stat("probe_difftool_invocation_checked")
+            ok = args_seen == "skipped" or (args_seen is not None and len(args_seen) >= 3 and args_seen[0][0] == "diff" and
+                                            args_seen[1][1] == self.nb_clean and args_seen[2][1] == self.nb_dirty)
+            if not ok:
+                self.violate("S5", dict(sig, what="difftool_invocation"),
+                             "after a successful enable, `git difftool --tool=nbdime -- 'sp ace.ipynb'` does not hand nbdime's "
+                             "tool the committed and the working version of the notebook: %r" % (args_seen,))
                 return
         op2 = dict(op, fault=None)
         outcome2, _, _ = self.run_command(op2, after, lambda n, argv: None)
